@@ -81,7 +81,7 @@ var properties = map[string]*propDef{
 	},
 	"C04": {
 		Level: "exploration",
-		Rule: "cases are rapid-generated scripts of writes, time-range deletes (data-only, index-only, whole group; unaligned bounds), GC passes at drawn thresholds, reopen and reads; after every delete and around every GC pass every channel is read in full and compared with the reference map; non-trivial = at least one delete that removed samples and >=2 committed domains; distinct = hash of (script shape, samples removed per delete, GC effect, file-size cap)",
+		Rule:  "cases are rapid-generated scripts of writes, time-range deletes (data-only, index-only, whole group; unaligned bounds), GC passes at drawn thresholds, reopen and reads; after every delete and around every GC pass every channel is read in full and compared with the reference map; non-trivial = at least one delete that removed samples and >=2 committed domains; distinct = hash of (script shape, samples removed per delete, GC effect, file-size cap)",
 		Real:  cesiumReal, Stub: cesiumStub,
 		Assumptions: []string{
 			"reference model: ts->bytes map minus deleted keys; index-channel delete: must be refused when a non-named dependent channel has a sample in the range, must succeed when no dependent has a sample in any writer time slot the range touches, either otherwise",
@@ -92,7 +92,7 @@ var properties = map[string]*propDef{
 	},
 	"C02": {
 		Level: "fault_enumeration",
-		Rule: "cases are rapid-generated scripts (writes with always/lazy persistence, explicit commits, closes, time-range deletes, GC passes, reopen); for each script EVERY prefix of the recorded filesystem mutation log after channel creation is a crash point (when a log exceeds 500 points: all points within +-3 of a rename/truncate/remove/index write plus a seeded sample), plus torn variants of the crashing write (1 byte, half, all but one, one 26-byte pointer record in, one record short); evaluations counts scripts, coverage.crash_points counts recoveries; a script is non-trivial when it produced >=20 crash points; distinct = hash of (script shape, log length)",
+		Rule:  "cases are rapid-generated scripts (writes with always/lazy persistence, explicit commits, closes, time-range deletes, GC passes, reopen); for each script EVERY prefix of the recorded filesystem mutation log after channel creation is a crash point (when a log exceeds 500 points: all points within +-3 of a rename/truncate/remove/index write plus a seeded sample), plus torn variants of the crashing write (1 byte, half, all but one, one 26-byte pointer record in, one record short); evaluations counts scripts, coverage.crash_points counts recoveries; a script is non-trivial when it produced >=20 crash points; distinct = hash of (script shape, log length)",
 		Real:  cesiumReal,
 		Stub:  append([]string{"crash: disk image rebuilt from a prefix of the recorded mutation log (process-crash model: completed FS calls survive, nothing else; optionally a torn last write)"}, cesiumStub...),
 		Assumptions: []string{
@@ -101,6 +101,17 @@ var properties = map[string]*propDef{
 			"scripts that trigger the recorded C04 known finding (delete bound inside a rolled-over domain) are skipped, since the store is corrupt before any crash",
 		},
 		RequiredProbes: []string{"crash_points", "rollover", "gc_rewrote_file"},
-		Units: []unit{func() unit { u := cesiumUnit("cesium-crash", "c02"); return u }()},
+		Units:          []unit{func() unit { u := cesiumUnit("cesium-crash", "c02"); return u }()},
+	},
+	"C10": {
+		Level: "exploration",
+		Rule:  "layouts come from C01/C04 scripts (multi-domain, rollover, out-of-order, deletes, GC); on them rapid-generated command sequences (SeekFirst/SeekLast/SeekLE/SeekGE, Next/Prev with spans from 1ns to the maximum, auto-span Next/Prev with chunk sizes 1-7, SetBounds) drive the per-channel iterator, whose reported view decides what each step must return; non-trivial = >=2 committed domains and at least one complete traversal of the bounds in one direction; distinct = hash of (script shape incl. command kinds, layout facts)",
+		Real:  cesiumReal, Stub: cesiumStub,
+		Assumptions: []string{
+			"the per-channel iterator (cesium/internal/unary.Iterator, which reports View()) is driven in-package through the real database's channel map; the multi-channel cesium.Iterator is exercised by C01's sweeps",
+			"after each step: returned samples == reference samples with timestamp inside the REPORTED view; views of consecutive same-direction steps are adjacent; auto steps return at most chunk-size samples; a SeekFirst/SeekLast-started run that reaches the end of the bounds has visited every in-bounds sample exactly once; an error on an auto step is tolerated only when no stored sample is left in the direction of travel",
+		},
+		RequiredProbes: []string{"iter_next", "iter_prev", "iter_anext", "iter_aprev", "iter_full_traversal_fwd", "iter_full_traversal_bwd", "iter_direction_reversal", "iter_view_ends_between_samples", "rollover"},
+		Units:          []unit{cesiumUnit("cesium-seq", "c10")},
 	},
 }
